@@ -218,6 +218,14 @@ def oracle(case):
     pts = np.array([[xll + p[0] * csz / 8, yll + p[1] * csz / 8]
                     for p in case["pts"]], dtype=np.float64)
     wv = voronoi(ca, pts.copy())
+    wl = voronoi(ca, pts.tolist())
+    if not np.array_equal(wl, wv):
+        raise Violation("voronoi differs between array and list input")
+    if len(pts) == 1:
+        w1 = voronoi(ca, pts[0].copy())
+        if w1.shape != (1,) or abs(w1[0] - 1) > 1e-12:
+            raise Violation(f"voronoi with a single point given as a pair "
+                            f"returns {w1}")
     if wv.shape != (len(pts),):
         raise Violation(f"voronoi returns shape {wv.shape}")
     cnt = np.zeros(len(pts))
